@@ -25,6 +25,45 @@ pub fn wide_oid() -> Vec<u8> {
     tlv(0x06, &c)
 }
 
+/// An OBJECT IDENTIFIER whose last arc is any 128-bit number: `first` is the first content octet (40*a+b), `mid` the arcs
+/// between, `arc` the last arc in base 128. Arcs of 2^64 and more do not fit the u64 arcs rcgen computes with: an
+/// importer refuses them or carries them exactly; reducing them modulo 2^64 lands on another, possibly registered, OID.
+pub fn big_arc_oid(first: u8, mid: &[u64], arc: u128) -> Vec<u8> {
+    let mut c = vec![first];
+    let mut push = |arc: u128, c: &mut Vec<u8>| {
+        let mut tmp = vec![(arc & 0x7f) as u8];
+        let mut v = arc >> 7;
+        while v > 0 {
+            tmp.push(0x80 | (v & 0x7f) as u8);
+            v >>= 7;
+        }
+        tmp.reverse();
+        c.extend(tmp);
+    };
+    for m in mid {
+        push(*m as u128, &mut c);
+    }
+    push(arc, &mut c);
+    tlv(0x06, &c)
+}
+
+/// (label, last arc): around the ends of u64 and of the ten-octet base-128 form (70 bits)
+pub fn big_arcs() -> Vec<(&'static str, u128)> {
+    vec![("2^63", 1 << 63), ("2^64-1", (1 << 64) - 1), ("2^64", 1 << 64), ("2^64+1", (1 << 64) + 1), ("2^64+3", (1 << 64) + 3), ("2^64+10", (1 << 64) + 10), ("2^65+3", (1 << 65) + 3), ("2^70-1", (1 << 70) - 1), ("2^70+3", (1 << 70) + 3), ("2^71+3", (1 << 71) + 3)]
+}
+
+/// Names whose (single or second) attribute type is 2.5.4.<big arc>: modulo 2^64 several of them read as commonName (3)
+/// or organizationName (10).
+pub fn big_arc_names() -> Vec<(String, Vec<u8>)> {
+    let mut v = Vec::new();
+    for (l, arc) in big_arcs() {
+        let atv = seq(&[big_arc_oid(85, &[4], arc), string(T_UTF8, b"admin.example.com")]);
+        v.push((format!("type 2.5.4.({})", l), seq(&[set_of(&[atv.clone()])])));
+        v.push((format!("O=ok, then type 2.5.4.({})", l), seq(&[set_of(&[seq(&[oid(&[2, 5, 4, 10]), string(T_UTF8, b"ok")])]), set_of(&[atv])])));
+    }
+    v
+}
+
 /// Extension-value variants: (label, oid, critical, value DER, a CSR carrying it must be refused).
 pub fn ext_variants() -> Vec<(String, Vec<u64>, bool, Vec<u8>, bool)> {
     let mut v: Vec<(String, Vec<u64>, bool, Vec<u8>, bool)> = Vec::new();
@@ -49,6 +88,10 @@ pub fn ext_variants() -> Vec<(String, Vec<u64>, bool, Vec<u8>, bool)> {
     add("eku server + unknown", OID_EKU, false, ext_eku(&[vec![1, 3, 6, 1, 5, 5, 7, 3, 1], vec![1, 2, 3, 4]]), false);
     add("eku server + 128-bit arc", OID_EKU, false, seq(&[oid(&[1, 3, 6, 1, 5, 5, 7, 3, 1]), wide_oid()]), false);
     add("eku only 128-bit arc", OID_EKU, false, seq(&[wide_oid()]), false);
+    for (l, arc) in big_arcs() {
+        // id-kp.(arc): modulo 2^64 some of these read as serverAuth (1) or OCSPSigning... the issued content decides
+        add(&format!("eku id-kp.({})", l), OID_EKU, false, seq(&[big_arc_oid(43, &[6, 1, 5, 5, 7, 3], arc)]), false);
+    }
     add("eku empty", OID_EKU, false, seq(&[]), false);
     add("eku duplicate server", OID_EKU, false, ext_eku(&[vec![1, 3, 6, 1, 5, 5, 7, 3, 1], vec![1, 3, 6, 1, 5, 5, 7, 3, 1]]), false);
     // subject alternative name kinds
@@ -62,6 +105,9 @@ pub fn ext_variants() -> Vec<(String, Vec<u64>, bool, Vec<u8>, bool)> {
     add("san otherName INTEGER value", OID_SAN, false, seq(&[ctx_cons(0, &cat(&[oid(&[1, 2, 3]), ctx_cons(0, &uint(&[5]))]))]), true);
     add("san otherName without explicit tag", OID_SAN, false, seq(&[ctx_cons(0, &cat(&[oid(&[1, 2, 3]), string(T_UTF8, b"x")]))]), true);
     add("san otherName 128-bit arc", OID_SAN, false, seq(&[ctx_cons(0, &cat(&[wide_oid(), ctx_cons(0, &string(T_UTF8, b"x"))]))]), true);
+    for (l, arc) in big_arcs() {
+        add(&format!("san otherName type 1.3.6.1.4.1.311.20.2.({})", l), OID_SAN, false, seq(&[ctx_cons(0, &cat(&[big_arc_oid(43, &[6, 1, 4, 1, 311, 20, 2], arc), ctx_cons(0, &string(T_UTF8, b"x"))]))]), false);
+    }
     add("san dns that reads as ipv4 / ipv6, rfc822 and uri that read as ip", OID_SAN, false, seq(&[gn(2, false, b"10.11.12.13"), gn(2, false, b"2001:db8::7"), gn(1, false, b"192.0.2.1"), gn(6, false, b"::1")]), false);
     add("san dns non-ascii", OID_SAN, false, seq(&[gn(2, false, "caf\u{e9}.example".as_bytes())]), true);
     add("san dns invalid utf8", OID_SAN, false, seq(&[gn(2, false, &[0xff, 0xfe])]), true);
@@ -111,6 +157,8 @@ pub fn name_variants() -> Vec<(String, Vec<u8>)> {
         ("name with Teletex high bytes".into(), seq(&[set_of(&[atv(&[2, 5, 4, 3], T_TELETEX, &[0xe9, 0x80])])])),
         ("name with Printable '@'".into(), seq(&[set_of(&[atv(&[2, 5, 4, 3], T_PRINTABLE, b"a@b")])])),
         ("name with IA5 high bit".into(), seq(&[set_of(&[atv(&[2, 5, 4, 3], T_IA5, &[0x80])])])),
+        ("name with type 2.5.4.(2^64+3), reads as commonName modulo 2^64".into(), seq(&[set_of(&[seq(&[big_arc_oid(85, &[4], (1u128 << 64) + 3), string(T_UTF8, b"admin.example.com")])])])),
+        ("name with type 2.5.4.(2^64-1)".into(), seq(&[set_of(&[seq(&[big_arc_oid(85, &[4], (1u128 << 64) - 1), string(T_UTF8, b"v")])])])),
         ("name with 128-bit arc type".into(), seq(&[set_of(&[seq(&[wide_oid(), string(T_UTF8, b"v")])])])),
         ("name with 40 RDNs".into(), seq(&(0..40).map(|i| set_of(&[atv(&[1, 2, 3, i as u64], T_UTF8, b"v")])).collect::<Vec<_>>())),
         ("name with constructed string value".into(), seq(&[set_of(&[seq(&[oid(&[2, 5, 4, 3]), tlv(0x2c, &string(T_UTF8, b"x"))])])])),
